@@ -3,8 +3,17 @@ import hashlib
 import json
 from collections import Counter
 
+import os
+
 MAX_VIOL_PER_SHARD = 40
 MAX_SAMPLES = 3
+# self-validation only (./selftest, ./seedtest against a scratch copy): stop at the first violation instead of
+# finishing the workload; never honoured for a run against /repo itself
+FAIL_FAST = os.environ.get("VERIF_FAIL_FAST") == "1" and os.environ.get("VERIF_REPO", "/repo").rstrip("/") != "/repo"
+
+
+class FailFast(BaseException):
+    pass
 
 
 def h(s):
@@ -51,6 +60,8 @@ class Agg:
             self.shapes.add(h(shape))
         if sum(1 for v in self.violations if v["cls"] == cls) < 3 and len(self.violations) < MAX_VIOL_PER_SHARD:
             self.violations.append({"cls": cls, "case": case, "detail": detail})
+        if FAIL_FAST:
+            raise FailFast()
 
     def known_finding(self, kf, case, detail, shape=None):
         self.counters["evaluations"] += 1
